@@ -433,6 +433,102 @@ def reference_cells(edges, an, var, mode, args, rule="half-open", route_by="arg"
     return out
 
 
+def compute_segments(n, computes):
+    """The fills between the computes of a history: *computes* are the points (k = before the k-th of
+    the n fills, n = after the last fill) at which compute() is called in addition to the final
+    compute().  Returns one (first position, end position) per compute, the final one included."""
+    bounds = sorted(computes) + [n]
+    segments, start = [], 0
+    for b in bounds:
+        segments.append((start, b))
+        start = b
+    return segments
+
+
+def private_history_results(analysis, segments):
+    """What a private copy of the analysis computes at every compute of a history fill*, compute,
+    fill*, compute ...: *segments* holds the values filled before each compute.  Returns one
+    (results, "end" or exception type name) per compute; results are snapshots taken when they were
+    computed.  A fill that raises ends the history of this copy: all later computes give ([], type)."""
+    seq = analysis
+    if not isinstance(seq, lena.core.FillComputeSeq):
+        seq = lena.core.FillComputeSeq(seq)
+    out = []
+    broken = None
+    for values in segments:
+        if broken is None:
+            try:
+                for v in values:
+                    seq.fill(v)
+            except Exception as e:  # noqa
+                broken = type(e).__name__
+        if broken is not None:
+            out.append(([], broken))
+            continue
+        results = []
+        term = "end"
+        try:
+            for r in seq.compute():
+                results.append(r)
+        except Exception as e:  # noqa
+            term = type(e).__name__
+        out.append((copy.deepcopy(results), term))
+    return out
+
+
+def reference_history(edges, an, var, mode, args, computes, pre=0):
+    """The per-cell oracle for a history with several computes: a list with one entry per compute
+    (the final one last), each cell index -> (results, terminal, positions, values) like
+    reference_cells, the positions and values being those routed into the cell so far.  Every cell's
+    private copy is computed at exactly the points at which SplitIntoBins is computed."""
+    cells = all_cells(edges)
+    segments = compute_segments(len(args), computes)
+    where = [cell_of(a, edges) for a in args]
+    per_cell = {}
+    for idx in cells:
+        values = build_flow(args, var, mode)        # fresh deep copies for every cell
+        segs = [[values[p] for p in range(lo, hi) if where[p] == idx] for lo, hi in segments]
+        per_cell[idx] = (values, private_history_results(build_template(an, edges, var, mode, pre), segs))
+    out = []
+    for c, (lo, hi) in enumerate(segments):
+        entry = {}
+        for idx in cells:
+            values, hist = per_cell[idx]
+            positions = [p for p in range(hi) if where[p] == idx]
+            entry[idx] = (hist[c][0], hist[c][1], positions, [values[p] for p in positions])
+        out.append(entry)
+    return out
+
+
+# ---------------------------------------------------------------------------------------------
+# the string of a cell's edges (IterateBins' context.bin.edges_str, cell_to_string and its options)
+# ---------------------------------------------------------------------------------------------
+
+def documented_names(var_context, dim):
+    """The coordinate names the docstrings fix: "var_context is variable context containing variable
+    names (it can be a single Variable or Combine)" - the name of a one-dimensional variable, the names
+    of the variables of a Combine.  None where nothing is documented (no variable, a multidimensional
+    variable that is not a Combine)."""
+    if not isinstance(var_context, dict):
+        return None
+    if "combine" in var_context:
+        names = [c.get("name") for c in var_context["combine"]]
+        return names if len(names) == dim else None
+    if dim == 1 and "name" in var_context:
+        return [var_context["name"]]
+    return None
+
+
+def edges_string(cell_edges_, names, fmt, join, reverse):
+    """cell_to_string by its docstring: every coordinate formatted with *fmt* from (lower bound, name,
+    upper bound) of that coordinate, joined with *join*, in reverse order of the coordinates if
+    *reverse*."""
+    parts = [fmt.format(pair[0], name, pair[1]) for pair, name in zip(cell_edges_, names)]
+    if reverse:
+        parts = parts[::-1]
+    return join.join(parts)
+
+
 # ---------------------------------------------------------------------------------------------
 # MapBins sequences
 # ---------------------------------------------------------------------------------------------
